@@ -288,13 +288,23 @@ class Origin:
                     return
             # ---- read the body
             if beh.get("read_body", True):
+                slow = beh.get("slow_read")      # {"bytes": n, "pause_ms": t}: a consumer slower than the producer
+                if slow:
+                    try:
+                        c.setsockopt(socket.SOL_SOCKET, socket.SO_RCVBUF, 4096)
+                    except OSError:
+                        pass
+                    if slow.get("initial_stall_ms"):
+                        time.sleep(slow["initial_stall_ms"] / 1000.0)
                 while True:
                     try:
                         mm, end = httpref.parse_message(bytes(buf), "request", eof)
                         break
                     except httpref.NeedMore:
                         try:
-                            d = c.recv(65536)
+                            if slow:
+                                time.sleep(slow.get("pause_ms", 2) / 1000.0)
+                            d = c.recv(int(slow["bytes"]) if slow else 65536)
                         except (socket.timeout, OSError):
                             d = b""
                         if not d:
